@@ -1,6 +1,7 @@
 /* C06 harnesses: parallel_sort's pre-sortedness probe, dispatch and median selection (sliced from parallel_sort.h) */
 #include "verif.h"
 #include <stdlib.h>
+#ifdef SORT
 typedef int *RandomAccessIterator;
 int *g_base; size_t g_n, g_p; bool g_inv, g_cancelled, g_pair_examined, g_sort_called; int g_mode;
 #define TARGET (g_base + g_p + 1)
@@ -71,3 +72,130 @@ void h_median(void) {
     OBLIGATION((long)vx == (long)vl + vm + vr - lo - hi, "C06.median: its value is the median of the three values");
     VACUITY_END();
 }
+#endif /* SORT */
+
+#ifdef DISPATCH
+/* Every public overload of parallel_reduce / parallel_deterministic_reduce (sliced one by one from parallel_reduce.h; the descriptor row of each overload is derived
+   from its SIGNATURE only: name, body form or functional form, partitioner class or none, context or none).  The runner is a stub that records how it was called. */
+typedef long Value;
+struct Range { int d; }; struct Body { int d; }; struct RealBody { int d; }; struct Reduction { int d; }; struct task_group_context { int d; };
+struct simple_partitioner { int d; }; struct auto_partitioner { int d; }; struct static_partitioner { int d; }; struct affinity_partitioner { int d; };
+struct lambda_reduce_body { Value *identity; struct RealBody *real_body; struct Reduction *reduction; Value my_value; int constructed; };
+enum { K_start_reduce = 1, K_start_deterministic_reduce = 2 };
+enum { N_parallel_reduce = 1, N_parallel_deterministic_reduce = 2 };
+enum { FORM_BODY = 1, FORM_LAMBDA = 2 };
+enum { TT_none = 0, TT_Range, TT_Body, TT_lambda_reduce_body_Range_Value_RealBody_Reduction, TT_simple_partitioner, TT_auto_partitioner, TT_static_partitioner, TT_affinity_partitioner };
+static struct simple_partitioner g_temp_simple_partitioner; static struct auto_partitioner g_temp_auto_partitioner; static struct static_partitioner g_temp_static_partitioner; static struct affinity_partitioner g_temp_affinity_partitioner;
+#define TEMP(T) (&g_temp_##T)
+struct ov_args { struct Range *range; struct Body *body; Value *identity; struct RealBody *real_body; struct Reduction *reduction; struct task_group_context *context;
+                 struct simple_partitioner *p_simple_partitioner; struct auto_partitioner *p_auto_partitioner; struct static_partitioner *p_static_partitioner; struct affinity_partitioner *p_affinity_partitioner; };
+int g_runs, g_kind, g_t1, g_t2, g_t3, g_nargs; void *g_a_range, *g_a_body, *g_a_part, *g_a_ctx; Value g_result; int g_lctor; bool g_ran_on_lbody; void *g_l_identity, *g_l_real_body, *g_l_reduction; static struct lambda_reduce_body *g_lbody;
+static void lambda_reduce_body_ctor(struct lambda_reduce_body *b, Value *identity, struct RealBody *rb, struct Reduction *red) { b->identity = identity; b->real_body = rb; b->reduction = red; b->my_value = *identity; b->constructed = 1; g_lctor++; g_lbody = b; g_l_identity = identity; g_l_real_body = rb; g_l_reduction = red; }
+static Value lambda_reduce_body_result(struct lambda_reduce_body *b) { return b->my_value; }
+static void run_(int kind, int t1, int t2, int t3, int nargs, void *range, void *body, void *part, void *ctx) {
+    g_runs++; g_kind = kind; g_t1 = t1; g_t2 = t2; g_t3 = t3; g_nargs = nargs; g_a_range = range; g_a_body = body; g_a_part = part; g_a_ctx = ctx;
+    if (t2 == TT_lambda_reduce_body_Range_Value_RealBody_Reduction && g_lctor > 0 && body == (void *)g_lbody) { g_ran_on_lbody = true; g_lbody->my_value = g_result; }    /* the reduction leaves its value in the body it was given */
+}
+#define STUB_run3(kind, t1, t2, t3, r, b, p) run_((kind), (t1), (t2), (t3), 3, (r), (b), (p), NULL)
+#define STUB_run4(kind, t1, t2, t3, r, b, p, c) run_((kind), (t1), (t2), (t3), 4, (r), (b), (p), (c))
+#include "dispatch.inc"
+unsigned IN_overload;
+static void *part_of(struct ov_args *A, int tag) { return tag == TT_simple_partitioner ? (void *)A->p_simple_partitioner : tag == TT_auto_partitioner ? (void *)A->p_auto_partitioner : tag == TT_static_partitioner ? (void *)A->p_static_partitioner : tag == TT_affinity_partitioner ? (void *)A->p_affinity_partitioner : NULL; }
+static void *temp_of(int tag) { return tag == TT_simple_partitioner ? (void *)&g_temp_simple_partitioner : tag == TT_auto_partitioner ? (void *)&g_temp_auto_partitioner : tag == TT_static_partitioner ? (void *)&g_temp_static_partitioner : (void *)&g_temp_affinity_partitioner; }
+#define CHECK_OV(i, fn, NAME, FORM, PART, HASCTX, SIG) \
+    if (which == (i)) { Value r = call_##fn(&A); int want_part = (PART) != TT_none ? (PART) : ((NAME) == N_parallel_reduce ? TT_auto_partitioner : TT_simple_partitioner); \
+        OBLIGATION(g_runs == 1, "C06.dispatch: " SIG " starts exactly one reduction"); \
+        OBLIGATION((NAME) == N_parallel_deterministic_reduce ? g_kind == K_start_deterministic_reduce : (g_kind == K_start_reduce || g_kind == K_start_deterministic_reduce), \
+                   "C06.dispatch: " SIG " ends in the runner whose contracts give what this entry point promises (parallel_deterministic_reduce: only start_deterministic_reduce, the eager split whose join tree does not depend on the schedule)"); \
+        OBLIGATION(g_t3 == want_part, "C06.dispatch: " SIG " instantiates the runner for the partitioner class the caller chose (default: auto_partitioner for parallel_reduce, simple_partitioner for parallel_deterministic_reduce)"); \
+        OBLIGATION(g_a_part == ((PART) != TT_none ? part_of(&A, (PART)) : temp_of(want_part)), "C06.dispatch: " SIG " hands the caller's own partitioner object to the runner (a fresh default one if none was given)"); \
+        OBLIGATION(g_t1 == TT_Range && g_a_range == (void *)A.range, "C06.dispatch: " SIG " reduces the caller's range"); \
+        OBLIGATION((HASCTX) ? (g_nargs == 4 && g_a_ctx == (void *)A.context) : g_nargs == 3, "C06.dispatch: " SIG " runs in the caller's task_group_context if one was given, otherwise in the runner's own bound context"); \
+        if ((FORM) == FORM_BODY) OBLIGATION(g_t2 == TT_Body && g_a_body == (void *)A.body && g_lctor == 0, "C06.dispatch: " SIG " reduces into the caller's body"); \
+        else { OBLIGATION(g_t2 == TT_lambda_reduce_body_Range_Value_RealBody_Reduction && g_lctor == 1 && g_ran_on_lbody && g_l_identity == (void *)A.identity && g_l_real_body == (void *)A.real_body && g_l_reduction == (void *)A.reduction, \
+                          "C06.dispatch: " SIG " reduces into one lambda_reduce_body built from the caller's identity, range function and reduction (in that order)"); \
+               OBLIGATION(r == g_result, "C06.dispatch: " SIG " returns the value the reduction left in that body"); } \
+    }
+void h_reduce_dispatch(void) {
+    struct Range range; struct Body body; Value identity = nondet_long(); struct RealBody rb; struct Reduction red; struct task_group_context ctx;
+    struct simple_partitioner ps; struct auto_partitioner pa; struct static_partitioner pst; struct affinity_partitioner paf;
+    struct ov_args A = { &range, &body, &identity, &rb, &red, &ctx, &ps, &pa, &pst, &paf };
+    g_runs = 0; g_lctor = 0; g_lbody = NULL; g_ran_on_lbody = false; g_l_identity = g_l_real_body = g_l_reduction = NULL; g_result = nondet_long(); g_kind = g_t1 = g_t2 = g_t3 = g_nargs = 0; g_a_range = g_a_body = g_a_part = g_a_ctx = NULL;
+    unsigned which = IN_overload = nondet_unsigned(); __CPROVER_assume(which < C06_N_OVERLOADS);
+    C06_OVERLOADS(CHECK_OV)
+    VACUITY_END();
+}
+#endif /* DISPATCH */
+
+#ifdef FOLD
+/* partitioner.h fold_tree<TreeNodeType>: rely/guarantee on node::m_ref_count, for a tree of ANY depth (loop contract over the walk towards the root).
+   The chain of ancestors is the array N[0..g_depth]: N[j]'s parent is N[j+1]; N[g_depth] is the wait_node (no parent).
+   INV(j): N[j].m_ref_count == number of children of N[j] that have not finished yet (established by offer_work_impl: ref count 2 for two children; wait_node: 1).
+   Rely: other children finish at any time - the count only decreases, and never below the references still held (mine is counted while g_mine).
+   Guarantee of every step of this thread: INV again; a node is read, joined, freed only while this thread holds a counted reference to it or after its own
+   decrement brought the count to 0 (then no other thread has any business with the node). */
+typedef struct node { int m_ref_count; } node;
+typedef node TreeNodeType; typedef node wait_node;
+typedef struct execution_data { void *context; } execution_data;
+#define DMAX ((size_t)1 << 12)
+static node *N; static size_t g_depth, g_start;
+size_t g_at;      /* ghost: the level this thread is at */
+bool g_mine;      /* this thread is an unfinished child of N[g_at]: its reference is still counted */
+bool g_excl;      /* this thread's decrement was the last one: ALL children of N[g_at] have finished */
+bool g_joined;    /* N[g_at] has been joined by this thread */
+long g_others;    /* ghost census: OTHER unfinished children of N[g_at] */
+int g_released; size_t g_k; int g_join_k, g_free_k; void *g_ctx;
+#define INV_AT (g_others >= 0 && g_others < INT_MAX && N[g_at].m_ref_count == g_others + (g_mine ? 1 : 0))
+static void interfere(void) {   /* any number of other children of the node finish */
+    if (g_mine) { long o = nondet_long(); __CPROVER_assume(o >= 0 && o <= g_others); g_others = o; N[g_at].m_ref_count = (int)(o + 1); }
+}
+#define ACCESS(x) __CPROVER_assert(&(x) == &N[g_at].m_ref_count && (g_mine || g_excl), "C06.fold: a node is touched only by a thread that still holds a counted reference to it, or whose decrement was the last (otherwise the node may already be freed)")
+#define ATOMIC_LOAD_AT(site, x) ({ ACCESS(x); interfere(); (x); })
+#define ATOMIC_PREDEC_AT(site, x) ({ ACCESS(x); interfere(); __CPROVER_assert(g_mine, "C06.fold: each finishing child decrements its parent's count exactly once"); int r_ = --(x); g_mine = false; g_excl = (g_others == 0); \
+    __CPROVER_assert(INV_AT, "guarantee: m_ref_count equals the number of unfinished children, at " #site); r_; })
+#define ATOMIC_FETCH_SUB_AT(site, x, v) ({ ACCESS(x); interfere(); __CPROVER_assert(g_mine, "C06.fold: each finishing child decrements its parent's count exactly once"); int o_ = (x); (x) -= (v); g_mine = false; g_excl = (g_others == 0); \
+    __CPROVER_assert(INV_AT, "guarantee: m_ref_count equals the number of unfinished children, at " #site); o_; })
+static node *node_parent(node *n) { __CPROVER_assert(n == &N[g_at] && (g_mine || g_excl), "C06.fold: the parent link is read from a node this thread may still touch"); return g_at == g_depth ? NULL : &N[g_at + 1]; }
+#define NODE_PARENT(n) node_parent(n)
+static void TreeNodeType_join(TreeNodeType *self, void *context) {
+    __CPROVER_assert(self == &N[g_at] && g_at < g_depth, "C06.fold: join is applied to the tree node whose count was just decremented, never to the wait node");
+    OBLIGATION(g_excl, "C06.fold: a node is joined only by the thread whose decrement brought m_ref_count to 0, i.e. after ALL children of that node have finished");
+    OBLIGATION(!g_joined, "C06.fold: a node is joined at most once");
+    OBLIGATION(context == g_ctx, "C06.fold: join sees the context of the executing task (cancellation test)");
+    g_joined = true; if (g_at == g_k) g_join_k++;
+}
+static void STUB_delete_node(TreeNodeType *self, const execution_data *ed) {
+    __CPROVER_assert(self == &N[g_at] && g_at < g_depth, "C06.fold: the node freed is the tree node whose count was just decremented, never the wait node");
+    OBLIGATION(g_excl, "C06.fold: a node is freed only by the thread whose decrement brought m_ref_count to 0");
+    OBLIGATION(g_joined, "C06.fold: a node is joined before it is destroyed (the right body lives inside the node)");
+    if (g_at == g_k) g_free_k++;
+    /* the finished subtree N[g_at] is now one finishing child of its parent: this thread's reference there is still counted */
+    g_at++; g_mine = true; g_excl = false; g_joined = false; g_others = nondet_long(); __CPROVER_assume(g_others >= 0 && g_others < INT_MAX); N[g_at].m_ref_count = (int)(g_others + 1);
+}
+static void STUB_wait_release(wait_node *w) {
+    __CPROVER_assert(w == &N[g_depth] && g_at == g_depth, "C06.fold: only the root wait node is released");
+    OBLIGATION(g_excl, "C06.fold: the root's wait is released only by the thread whose decrement brought the root count to 0 (everything below has finished and was joined)");
+    g_released++;
+}
+#define LOOP_fold_1 __CPROVER_assigns(n, g_at, g_mine, g_excl, g_joined, g_others, g_join_k, g_free_k, __CPROVER_object_whole(N)) \
+    __CPROVER_loop_invariant(g_at <= g_depth && n == &N[g_at] && g_mine && !g_excl && !g_joined && g_released == 0 && INV_AT \
+        && g_join_k == ((g_k >= g_start && g_k < g_at) ? 1 : 0) && g_free_k == g_join_k) \
+    __CPROVER_decreases(g_depth - g_at)
+#include "fold.inc"
+size_t IN_depth, IN_start, IN_k; long IN_others;
+void h_fold(void) {
+    g_depth = IN_depth = nondet_size_t(); __CPROVER_assume(g_depth <= DMAX);
+    N = malloc((g_depth + 1) * sizeof(node)); __CPROVER_assume(N != NULL);
+    g_start = g_at = IN_start = nondet_size_t(); __CPROVER_assume(g_start <= g_depth);          /* a finishing task hangs under any node of the chain, possibly directly under the wait node */
+    g_k = IN_k = nondet_size_t(); __CPROVER_assume(g_k <= g_depth);
+    g_mine = true; g_excl = false; g_joined = false; g_released = 0; g_join_k = g_free_k = 0;
+    g_others = IN_others = nondet_long(); __CPROVER_assume(g_others >= 0 && g_others < INT_MAX); N[g_at].m_ref_count = (int)(g_others + 1);
+    execution_data ed; ed.context = g_ctx = nondet_ptr();
+    fold_tree(&N[g_at], &ed);
+    OBLIGATION(!g_mine, "C06.fold: the finishing child has given up its reference (decremented exactly once per node it was counted in)");
+    OBLIGATION(g_released ? (g_released == 1 && g_at == g_depth && g_excl) : !g_excl,
+               "C06.fold: fold_tree stops only where other children are still unfinished (it was not the last there), or at the root after releasing the wait exactly once; the thread that brings a count to 0 never walks away from the node");
+    OBLIGATION(g_join_k == ((g_k >= g_start && g_k < g_at) ? 1 : 0) && g_free_k == g_join_k, "C06.fold: every node this thread was the last child of is joined exactly once and then freed exactly once; no other node is joined or freed");
+    VACUITY_END();
+}
+#endif /* FOLD */
